@@ -63,6 +63,13 @@ type observation struct {
 	UsedUp                             bool   // the upstream proxy saw the configured credentials
 	UsedSite                           bool   // the origin saw the configured site credentials
 	PortRace                           bool   // all start attempts lost their port to another process (no verdict)
+
+	// history (history.go): the lines the property covers, the records `errors` mode dumps by right, the
+	// statuses the clients saw per step, and how many records each module wrote
+	HistLog, HistDumps string
+	History            []histResult
+	HistLines          map[string]int
+	HistTime           time.Duration
 }
 
 var (
@@ -329,6 +336,17 @@ func runAttempt(ctx *core.Ctx, c *Case, k int, g *rig, dir string) (o *observati
 	fr.afterHead()
 	fr.pac()
 	s3 := quiesce(40 * time.Millisecond)
+
+	// --- the drawn history: dumping and successful exchanges of both modules, interleaved ---
+	if len(c.History) > 0 {
+		t0 := time.Now()
+		defer func() { ctx.CountN("history-phase-milliseconds", int(o.HistTime/time.Millisecond)) }()
+		hr := &histRunner{c: c, k: k, paddr: paddr, aaddr: aaddr, useTLS: useTLS, pauth: pauth, aauth: aauth,
+			origin: ep.Origin, dead: g.deadAddr}
+		o.History = hr.run()
+		o.HistTime = time.Since(t0)
+	}
+	s3h := quiesce(60 * time.Millisecond)
 	fr.racy()
 	s4 := quiesce(40 * time.Millisecond)
 
@@ -354,9 +372,10 @@ func runAttempt(ctx *core.Ctx, c *Case, k int, g *rig, dir string) (o *observati
 		}
 		return n
 	}
-	s0, s1, s2, s3, s4 = cut(s0), cut(s1), cut(s2), cut(s3), cut(s4)
+	s0, s1, s2, s3, s3h, s4 = cut(s0), cut(s1), cut(s2), cut(s3), cut(s3h), cut(s4)
 	o.Startup, o.ReqLog, o.FailLog = all[:s0], all[s0:s1], all[s1:s2]+all[s4:]
-	o.FaultLog, o.FaultLogRacy = all[s2:s3], all[s3:s4]
+	o.FaultLog, o.FaultLogRacy = all[s2:s3], all[s3h:s4]
+	o.HistLog, o.HistDumps, o.HistLines = splitHistory(ctx, c, all[s3:s3h])
 	if c.LogHTTP == "errors" {
 		var d1, d2 string
 		o.FaultLog, d1 = splitHTTPDumps(o.FaultLog)
